@@ -873,6 +873,14 @@ class C05(Property):
         cases = []
         while len(cases) < 300:
             c = self._random(rng)
+            if c.get("obj") == "engine":
+                # free-running: one route, every thread's requests race from the very first one
+                c["ns"], c["inst"] = None, None
+                c = {k: v for k, v in c.items() if v is not None}
+                for sc in c["scripts"]:
+                    for o in sc:
+                        if o[0] in ENV_OPS:
+                            o[1] = o[1] % len(c["scripts"])
             if c.get("ns") or c["kind"] == "wg" or c["n"] < 1 or c.get("obj") in ("mrdef", "fxdef", "fxu", "finish", "finishvoid"):
                 continue
             c["scripts"] = (c["scripts"] * 3)[:8]
